@@ -62,7 +62,6 @@ inductive Obs where
   | eventsEnd                                  -- event sender dropped
   | transportDropped
   | connected (o : ConnectOutcome)
-  | lost (names : List Bytes)                  -- GHOST: `changed` lines inside a dropped receive future (K3)
 deriving Repr, DecidableEq
 
 inductive Pc where
@@ -83,6 +82,7 @@ structure St where
   password : Option Bytes := none    -- the rendered `password <pw>\n` request, if any
   version : Bytes := []
   buf : Bytes := []                  -- `recv_buf` of the connection
+  bstash : BState := .initial        -- builder state kept by the connection between receive futures (fix F12)
   avail : Bytes := []                -- delivered by the peer, not yet read
   eof : Bool := false
   rerr : Option Nat := none
@@ -126,16 +126,10 @@ def changedValues (f : AFrame) : List Bytes :=
 def emitEvents (s : St) (f : AFrame) : St :=
   (changedValues f).foldl (fun s n => emit s (.event n)) s
 
-/-- the frame under construction inside a builder (what is lost when its future is dropped) -/
-def curOf : BState → AFrame
-  | .initial => {}
-  | .inProgress c => c
-  | .listInProgress c _ => c
-
-/-- ghost: record the `changed` lines that die with a dropped receive future -/
-def dropFuture (s : St) (σ : BState) : St :=
-  let names := changedValues (curOf σ)
-  if names.isEmpty then s else emit s (.lost names)
+/-- a live receive future is dropped (`select!` took the command branch): after fix F12
+`ResponseBuilder::drop` hands what it has parsed so far to the connection, and the next
+`ResponseBuilder::new` resumes from it -/
+def dropFuture (s : St) (σ : BState) : St := { s with bstash := σ }
 
 /-- one poll of a live `receive()` future -/
 inductive RecvPoll where
@@ -146,22 +140,24 @@ inductive RecvPoll where
 available and parse again; then look at EOF / the read fault -/
 def pollRecv (s : St) (σ : BState) : St × RecvPoll :=
   match feed σ s.buf with
-  | (_, rest, .done r) => ({ s with buf := rest }, .ready (.resp r))
-  | (_, rest, .invalid) => ({ s with buf := rest }, .ready .invalid)
-  | (_, rest, .panic) => ({ s with buf := rest }, .ready .panic)
+  | (σ', rest, .done r) => ({ s with buf := rest, bstash := σ' }, .ready (.resp r))
+  | (σ', rest, .invalid) => ({ s with buf := rest, bstash := σ' }, .ready .invalid)
+  | (σ', rest, .panic) => ({ s with buf := rest, bstash := σ' }, .ready .panic)
   | (σ1, rest1, .pending) =>
     match s.rerr with
-    | some k => ({ s with buf := rest1 }, .ready (.io k))
+    | some k => ({ s with buf := rest1, bstash := σ1 }, .ready (.io k))
     | none =>
       if s.avail.isEmpty then
-        ({ s with buf := rest1 }, if s.eof then .ready (eofItem σ1 rest1) else .pending σ1)
+        if s.eof then ({ s with buf := rest1, bstash := σ1 }, .ready (eofItem σ1 rest1))
+        else ({ s with buf := rest1 }, .pending σ1)
       else
         match feed σ1 (rest1 ++ s.avail) with
-        | (_, rest, .done r) => ({ s with buf := rest, avail := [] }, .ready (.resp r))
-        | (_, rest, .invalid) => ({ s with buf := rest, avail := [] }, .ready .invalid)
-        | (_, rest, .panic) => ({ s with buf := rest, avail := [] }, .ready .panic)
+        | (σ', rest, .done r) => ({ s with buf := rest, avail := [], bstash := σ' }, .ready (.resp r))
+        | (σ', rest, .invalid) => ({ s with buf := rest, avail := [], bstash := σ' }, .ready .invalid)
+        | (σ', rest, .panic) => ({ s with buf := rest, avail := [], bstash := σ' }, .ready .panic)
         | (σ2, rest2, .pending) =>
-          ({ s with buf := rest2, avail := [] }, if s.eof then .ready (eofItem σ2 rest2) else .pending σ2)
+          if s.eof then ({ s with buf := rest2, avail := [], bstash := σ2 }, .ready (eofItem σ2 rest2))
+          else ({ s with buf := rest2, avail := [] }, .pending σ2)
 
 def itemErr : Item → ProtoErr
   | .unexpectedEof => .unexpectedEof
@@ -177,13 +173,13 @@ def afterReply (s : St) (deadline : Nat) : St :=
   | r :: q =>
     let s := { s with queue := q }
     match write s r.bytes with
-    | (s, none) => { s with pc := .waiting r .initial, fresh := true }
+    | (s, none) => { s with pc := .waiting r s.bstash, fresh := true }
     | (s, some k) => exitLoop (emit s (.resolved r.id (.protocol (.io k))))
   | [] =>
     if s.senders = 0 then exitLoop s
     else if s.now ≥ deadline then
       match write s IDLE with
-      | (s, none) => { s with pc := .idling .initial, fresh := true }
+      | (s, none) => { s with pc := .idling s.bstash, fresh := true }
       | (s, some k) => exitLoop (emit s (.closing (some (.io k))))
     else { s with pc := .waitNext deadline, fresh := false }
 
@@ -194,7 +190,7 @@ def startCancel (s : St) : St :=
   | r :: q =>
     let s := { s with queue := q }
     match write s NOIDLE with
-    | (s, none) => { s with pc := .cancelWait r .initial, fresh := true }
+    | (s, none) => { s with pc := .cancelWait r s.bstash, fresh := true }
     | (s, some k) => exitLoop (emit s (.resolved r.id (.protocol (.io k))))
 
 /-- `handle_idle_response` for a complete response -/
@@ -203,7 +199,7 @@ def idleResponse (s : St) (r : Response) : St :=
   | some (.ok f) =>
     let s := emitEvents s f
     match write s IDLE with
-    | (s, none) => { s with pc := .idling .initial, fresh := true }
+    | (s, none) => { s with pc := .idling s.bstash, fresh := true }
     | (s, some k) => exitLoop (emit s (.closing (some (.io k))))
   | some (.error _) => exitLoop (emit s (.closing none))
   | none => exitLoop s
@@ -249,7 +245,7 @@ def step (s : St) (recvFirst : Bool) : Option St :=
       | it => some (failConnect s (.protocol (itemErr it)))
   | .spawned =>
     match write s IDLE with
-    | (s, none) => some { s with pc := .idling .initial, fresh := true }
+    | (s, none) => some { s with pc := .idling s.bstash, fresh := true }
     | (s, some k) => some (exitLoop (emit s (.closing (some (.io k)))))
   | .idling σ =>
     let cmdReady := !s.queue.isEmpty || s.senders = 0
@@ -278,7 +274,7 @@ def step (s : St) (recvFirst : Bool) : Option St :=
         | some (.ok f) =>
           let s := emitEvents s f
           match write s r.bytes with
-          | (s, none) => some { s with pc := .waiting r .initial, fresh := true }
+          | (s, none) => some { s with pc := .waiting r s.bstash, fresh := true }
           | (s, some k) => some (exitLoop (emit s (.resolved r.id (.protocol (.io k)))))
         | some (.error _) => some (exitLoop (emit (emit s (.closing none)) (.resolved r.id .closed)))
         | none => some (exitLoop (emit s (.resolved r.id .closed)))
